@@ -201,6 +201,125 @@ func destPreamble() []preStep {
 	return steps
 }
 
+// ---------------------------------------------------------------------------------------------
+// a stalled writer (spec/RenderPool.tla: Stall / IndependentOfStalledWriters)
+
+// gatedWriter accepts nothing until it is released; entered is closed when a Write is waiting.
+type gatedWriter struct {
+	got     []byte
+	entered chan struct{}
+	release chan struct{}
+	once    sync.Once
+}
+
+func (w *gatedWriter) Write(p []byte) (int, error) {
+	w.once.Do(func() { close(w.entered) })
+	<-w.release
+	w.got = append(w.got, p...)
+	return len(p), nil
+}
+
+// stallTest renders a document that is larger than the render buffer into a writer that stalls, and while that
+// render is blocked inside its writer lets other goroutines render into their own writers: they must all complete
+// within the bound. Then the writer is released and the blocked render must deliver exactly its document.
+// Every wait has a time limit: the harness ends in a verdict or a harness error, it never hangs.
+func stallTest(ref map[job]want, others int, bound time.Duration) (completed int) {
+	const n = 1500 // x 5 bytes: larger than any runtime.DefaultBufferSize used here
+	prog := make([]interp.Op, n)
+	for i := range prog {
+		prog[i] = L(5)
+	}
+	items, err := interp.BuildStatic(prog)
+	if err != nil {
+		vhlib.Fatal("%v", err)
+	}
+	big := interp.Interp(items)
+	var solo bytes.Buffer
+	if err := big.Render(context.Background(), &solo); err != nil {
+		vhlib.Fatal("big document does not render alone: %v", err)
+	}
+	gw := &gatedWriter{entered: make(chan struct{}), release: make(chan struct{})}
+	aDone := make(chan error, 1)
+	go func() {
+		id := atomic.AddInt64(&renderID, 1)
+		rec.Begin(id)
+		err := big.Render(context.Background(), gw)
+		rec.End(interp.Classify(err))
+		aDone <- err
+	}()
+	select {
+	case <-gw.entered:
+	case err := <-aDone:
+		vhlib.Fatal("the big render finished without ever writing through to its writer: %v", err)
+	case <-time.After(20 * time.Second):
+		vhlib.Fatal("the big render never reached its writer")
+	}
+	// the big render is now blocked inside its writer
+	type res struct {
+		j   job
+		got want
+	}
+	out := make(chan res, others*3)
+	for g := 0; g < others; g++ {
+		go func(g int) {
+			for k := 0; k < 3; k++ {
+				j := job{prog: (g + k) % 6, plan: 0, via: k % 2}
+				if k == 2 {
+					j = job{prog: g % galleryVariants, plan: 0, via: 4}
+				}
+				out <- res{j, run(j, false)}
+			}
+		}(g)
+	}
+	timeout := time.After(bound)
+	var got []res
+wait:
+	for len(got) < others*3 {
+		select {
+		case r := <-out:
+			got = append(got, r)
+		case <-timeout:
+			break wait
+		}
+	}
+	completed = len(got)
+	if completed < others*3 {
+		atomic.AddInt64(&mismatch, 1)
+		vhlib.Fail("IndependentOfStalledWriters", "renders into their own writers did not complete while the writer of another render is stalled",
+			map[string]any{"completed": completed, "of": others * 3, "bound": bound.String(), "development_mode": devMode,
+				"stalled_render": fmt.Sprintf("document of %d bytes, buffer size %d, blocked in its writer's first Write", solo.Len(), templruntime.DefaultBufferSize)})
+	}
+	close(gw.release)
+	// after the release everything must finish
+	deadline := time.After(30 * time.Second)
+	for len(got) < others*3 {
+		select {
+		case r := <-out:
+			got = append(got, r)
+		case <-deadline:
+			vhlib.Fatal("renders still blocked 30s after the stalled writer was released")
+		}
+	}
+	select {
+	case err := <-aDone:
+		if err != nil || norm(string(gw.got)) != norm(solo.String()) {
+			atomic.AddInt64(&mismatch, 1)
+			vhlib.Fail("Isolated", "the render whose writer had stalled did not deliver exactly its document after the release",
+				map[string]any{"error": fmt.Sprint(err), "bytes": len(gw.got), "document_bytes": solo.Len()})
+		}
+	case <-time.After(30 * time.Second):
+		vhlib.Fatal("the stalled render did not finish 30s after its writer was released")
+	}
+	for _, r := range got {
+		if w := ref[r.j]; r.got != w {
+			atomic.AddInt64(&mismatch, 1)
+			vhlib.Fail("Isolated", "a render that ran while another render's writer was stalled differs from the same render alone",
+				map[string]any{"job": r.j.String(), "alone": w, "got": r.got})
+		}
+	}
+	return completed
+}
+
 func renderToGoHTML(c templ.Component) want {
 	id := atomic.AddInt64(&renderID, 1)
 	rec.Begin(id)
@@ -406,6 +525,7 @@ func main() {
 				map[string]any{"destination_kind": st.kind, "destination": st.who, "program": st.prog, "alone": w, "got": st.got})
 		}
 	}
+	stallCompleted := stallTest(ref, 4, 10*time.Second)
 	var wg sync.WaitGroup
 	start := time.Now()
 	deadline := start.Add(time.Duration(N) * time.Millisecond)
@@ -477,7 +597,7 @@ func main() {
 	nev := writeEvents(os.Args[5])
 	vhlib.Summary(map[string]any{"renders": renders, "mismatches": mismatch, "failed_as_alone": failedOK, "events": nev,
 		"hook_calls": atomic.LoadInt64(&hookN), "goroutines": G, "handle_ids": nids, "rewrites": reloads,
-		"variants_seen": variantsSeen(), "buffer_size": templruntime.DefaultBufferSize})
+		"variants_seen": variantsSeen(), "completed_while_a_writer_was_stalled": stallCompleted, "buffer_size": templruntime.DefaultBufferSize})
 }
 
 // ---------------------------------------------------------------------------------------------
